@@ -167,6 +167,23 @@ def h_circle(mode, n, rmax, m):
     sample_bounds(m, tag, mask, nn, lambda X, Y: O.disk_in(X, Y, cx, cy, r), lambda X, Y: O.disk_out(X, Y, cx, cy, r))
 
 
+def h_circle_history(m):
+    """the mask is a fresh array every time: writing into a returned mask does not change later masks of the same (or an equal) circle"""
+    from regions import CirclePixelRegion, PixCoord
+    shims(m)
+    cx, cy = m.real('cx'), m.real('cy')
+    r = m.pos('r', hi=1)
+    reg = CirclePixelRegion(PixCoord(cx, cy), r)
+    first = reg.to_mask(mode='center')
+    data = np.asarray(first.data)
+    for idx in np.ndindex(*data.shape):
+        first.data[idx] = 7
+    for tag, again in (('same region', reg.to_mask(mode='center')), ('equal region', CirclePixelRegion(PixCoord(cx, cy), r).to_mask(mode='center'))):
+        m.require(f'{tag}: a new array is returned', again.data is not first.data)
+        box_checks(m, tag, reg, again)
+        sample_bounds(m, tag, again, 1, lambda X, Y: O.disk_in(X, Y, cx, cy, r), lambda X, Y: O.disk_out(X, Y, cx, cy, r))
+
+
 def _angle(m, aunit):
     return None if aunit == 'default' else m.angle('theta', aunit)
 
@@ -358,7 +375,7 @@ def h_modes(kind, m):
     if kind in ('rectangle', 'polygon'):
         expect(NotImplementedError, mode='exact')
     # center mode ignores the subpixels argument: identical to subpixels=1
-    m1 = reg.to_mask(mode='center', subpixels=7)
+    m1 = reg.to_mask(mode='center', subpixels=2)
     m2 = reg.to_mask(mode='subpixels', subpixels=1)
     d1, d2 = cells_of(m1), cells_of(m2)
     m.require(f'{kind}: center mode equals subpixels=1 (shape)', d1.shape == d2.shape)
@@ -524,6 +541,7 @@ def harnesses(tier):
     hs.append(('circle/center/r<1', P(h_circle, 'center', 1, 1)))
     hs.append(('circle/subpixels1/r<1', P(h_circle, 'subpixels', 1, 1)))
     hs.append(('circle/subpixels2/r<1', P(h_circle, 'subpixels', 2, 1)))
+    hs.append(('circle/history/returned-mask-overwritten', h_circle_history))
     for au in (['deg', 'rad'] if q else ['default', 'deg', 'rad']):
         if q and au == 'rad':
             for mode, n in (('center', 5), ('subpixels', 3)):
